@@ -203,8 +203,8 @@ def run(ctx):
     tk = prog.functions.get([k for k in prog.functions if "BinaryCodingTraits<llbuild::buildsystem::BuildValue::Kind>::encode" in k][0])
     w = tk.calls("BinaryEncoder::write")
     r.check(len(w) == 1 and prog_type(tk, w[0]) == "uint8_t", "BuildValue::Kind|tag-width", "", "kind is not written as one byte", tk)
-    ik = codec.switch_table(prog.fn("BuildKey::identifierForKind"))
-    ki = codec.switch_table(prog.fn("BuildKey::kindForIdentifier"))
+    ik = codec.return_table(prog.fn("BuildKey::identifierForKind"))
+    ki = codec.return_table(prog.fn("BuildKey::kindForIdentifier"))
     if ik is None or ki is None:
         raise AnalysisBroken("BuildKey kind tables have an unexpected shape")
     kinds = [x["n"] for x in prog.enum("buildsystem::BuildKey::Kind")["enumerators"]]
@@ -382,6 +382,7 @@ def run(ctx):
     STRY = ("basic_string", "StringRef", "KeyType", "SmallString", "Twine", "SmallVector")
     n_sites = 0
     n_lit = 0
+    nul_ord = {}
     for f in prog.functions.values():
         if f.is_lambda or not any(f.cls.endswith(c) for c in ("BuildKey", "BuildValue", "StringList", "BinaryEncoder", "BinaryDecoder", "KeyType")) and \
                 "BinaryCodingTraits<" not in f.cls:
@@ -411,7 +412,11 @@ def run(ctx):
             n_sites += 1
             lit = core(a) is not None and core(a).get("k") == "str"
             n_lit += 1 if lit else 0
-            site = "%s|%s(%s)" % (f.name.split("::")[-1] if f.cls else f.name, nm, expr_str(a)[:30])
+            # site key without local variable names (stable under renaming): class::function | callee # ordinal within the function
+            owner = "%s::%s" % (f.cls.split("::")[-1], f.name.split("::")[-1]) if f.cls else f.name
+            ordn = nul_ord.get((f.key, nm), 0)
+            nul_ord[(f.key, nm)] = ordn + 1
+            site = "%s|%s#%d" % (owner, nm, ordn)
             rn.check(lit, site, "literal", "%s rebuilds a byte string from the C string %s: bytes after an embedded NUL are lost" % (f.name, expr_str(a)[:50]), f, n)
     if n_sites == 0:
         rn.ok("no C-string conversions in the coding classes", "")
